@@ -1,6 +1,11 @@
 package patch
 
 import (
+	"bytes"
+	"encoding/binary"
+	"fmt"
+	"sync"
+	"sync/atomic"
 	"testing"
 
 	"github.com/tencent/goom/internal/zzverif/vh"
@@ -11,6 +16,15 @@ func TestVerifC15(t *testing.T) {
 	out := vh.OpenOut()
 	defer out.Close()
 	for _, op := range vh.ReadOps() {
+		if len(op.Toks) == 4 && op.Toks[0] == "conc" && op.Toks[1] == "amd64.entry" {
+			out.Put(op.Idx, "%s", c15Conc(vh.U64(op.Toks[2]), int(vh.U64(op.Toks[3])), func(to uint64) []byte { return jmpToFunctionValue(0x401000, uintptr(to)) },
+				func(to uint64) []byte {
+					b := []byte{0x90, 0x48, 0xBA, 0, 0, 0, 0, 0, 0, 0, 0, 0xFF, 0x22}
+					binary.LittleEndian.PutUint64(b[3:], to)
+					return b
+				}))
+			continue
+		}
 		if len(op.Toks) != 4 || op.Toks[0] != "emit" {
 			continue
 		}
@@ -26,4 +40,35 @@ func TestVerifC15(t *testing.T) {
 			out.Put(op.Idx, "relative=%v", relative(from, to))
 		}
 	}
+}
+
+
+func c15Conc(base uint64, g int, emit func(uint64) []byte, want func(uint64) []byte) string {
+	const k = 400
+	res := make([][][]byte, g)
+	var ready int32
+	var wg sync.WaitGroup
+	for i := 0; i < g; i++ {
+		wg.Add(1)
+		go func(i int) {
+			defer wg.Done()
+			res[i] = make([][]byte, k)
+			atomic.AddInt32(&ready, 1)
+			for atomic.LoadInt32(&ready) < int32(g) {
+			}
+			for j := 0; j < k; j++ {
+				res[i][j] = emit(base + uint64(i)<<32 + uint64(j)*0x10001)
+			}
+		}(i)
+	}
+	wg.Wait()
+	for i := 0; i < g; i++ {
+		for j := 0; j < k; j++ {
+			dx := base + uint64(i)<<32 + uint64(j)*0x10001
+			if !bytes.Equal(res[i][j], want(dx)) {
+				return fmt.Sprintf("conc mismatch to=%#x got=%s", dx, vh.Hex(res[i][j]))
+			}
+		}
+	}
+	return "conc ok"
 }
